@@ -39,6 +39,10 @@ class ENet:
         self.ctype, self.r, self.c = ctype, r, c
         p = self.p = max(r, c)
         d = min(r, c)
+        # common gain of the receivers (El and Er scaled together): every
+        # type can represent it, and the corrected device does not depend
+        # on it
+        self.rx_gain = 1.0
 
         def diag(rows, cols, centre, mag):
             m = np.zeros((rows, cols), dtype=complex)
@@ -86,9 +90,9 @@ class ENet:
                 etv = np.zeros(p, dtype=complex)
                 etv[k] = et
                 M[:, k] = el + er @ np.linalg.solve(I - S @ em, S @ etv)
-            return M
-        return self.El + self.Er @ np.linalg.solve(I - S @ self.Em,
-                                                   S @ self.Et)
+            return M * self.rx_gain
+        return (self.El + self.Er @ np.linalg.solve(I - S @ self.Em,
+                                                    S @ self.Et)) * self.rx_gain
 
 
 def embed(n_ports, ports, S_std, term):
